@@ -388,3 +388,45 @@ MANIFEST_TEXT["C14"] = {
     "text": "For every candidate strategy within the bounds (two entries, up to three (action, weight) pairs, names covering missing / extra / other-player / illegal cases, weights on a lattice of special values incl. -0, huge, inf, NaN) the solver shows: success iff the documented rules hold, the error kind names a violated rule, values are weight/total with the last entry winning, the accepted result is a distribution, and the hash-based and scan-based functions agree bit for bit.",
     "note": "The hash-based path runs over an association-list model of HashMap (trusted; Hash/bucket behaviour outside). Bounded list lengths; weights restricted to the stated lattice.",
 }
+
+# ---------------------------------------------------------------------------------------------
+# E2: MIR -> SMT for the CLI glue
+import os as _os
+import sys as _sys
+_sys.path.insert(0, _os.path.join(_os.path.dirname(_os.path.abspath(__file__)), "..", "mirsmt"))
+
+
+def _mirsmt(prop, tier):
+    import cli_check
+    return cli_check.run(prop, tier)
+
+
+_E2_EXPL = ("Symbolic execution of rustc's MIR of `fn main` (acyclic, every complete path) with library calls as uninterpreted functions and f64 in the SMT "
+            "floating-point theory; each path's observed call arguments / printed fields are compared with the specification by z3 (a sample re-checked with cvc5). "
+            "The MIR is dumped from /repo's current tree on every run.")
+REGISTRY["C15"] = {
+    "level": "other",
+    "explanation": _E2_EXPL + " Slice: from the solve call to the Output aggregate (clip step, utilities with the constant-sum offset, regrets, which profile is printed).",
+    "assumptions": ["rustc's MIR dump is the program that is compiled", "callees (parsers, solve, get_info, truncate, as_named, serialisation) are uninterpreted: parsing, payoff accumulation, action sorting, infoset naming and JSON serialisation are outside",
+                    "the converter contract: gambit::from_reader returns (game with player-one payoffs minus s, s) with s = half the constant sum (read from src/gambit.rs, not encoded)"],
+    "parts": [_mirsmt],
+}
+MANIFEST_TEXT["C15"] = {
+    "engine": "mirsmt",
+    "technique": "MIR-to-SMT symbolic execution of the CLI's main (output-assembly slice), decided by z3, cross-checked by cvc5",
+    "text": "For every path through main and all values (FP theory, NaN included) the solver shows that the printed regrets are those of the profile actually printed (after the clip step), that each utility is the library utility of that player plus the constant-sum offset (so the two add up to the constant), that the total regret is the library's max, and that the printed strategies are the named view of that same profile. Only the output-assembly slice: parsers and serialisation are outside.",
+    "note": "Level 'other': bounded/acyclic symbolic execution of compiler IR with uninterpreted callees; a counterexample is confirmed by running the built binary on generated constant-sum Gambit and JSON files and re-evaluating the printed strategies independently.",
+}
+REGISTRY["C16"] = {
+    "level": "other",
+    "explanation": _E2_EXPL + " Slice: option wiring (method, preset, budget with 0 = unlimited, threshold, threads), input route and format selection, clip decision, output route.",
+    "assumptions": ["rustc's MIR dump is the program that is compiled", "clap's parsing of the command line into Args and the parsers themselves are outside",
+                    "the five preset constructors are checked against the documented tuples under C08 (c08_presets)"],
+    "parts": [_mirsmt],
+}
+MANIFEST_TEXT["C16"] = {
+    "engine": "mirsmt",
+    "technique": "MIR-to-SMT symbolic execution of the CLI's main (option-wiring slice) and Discount::into_params, decided by z3, cross-checked by cvc5",
+    "text": "For every path through main the solver shows the decision tables equal the help text: -m maps to the library method of the same name, -d to the constructor of the same name, -t 0 to unlimited, -r/-p/-c are passed unchanged, the parser is chosen by --input-format, then by a .json/.efg extension, else by content; stdin/stdout are used iff the name is '-'; the pruned profile is printed exactly when its regret is strictly lower (all f64 pairs); the same object is serialised for every destination. Option-wiring slice only.",
+    "note": "Level 'other'. That a JSON and a Gambit encoding convert to the same game, and thread-count independence, are outside (parsers; C06). Counterexamples are confirmed by running the built binary against Game::solve through the replay crate.",
+}
